@@ -90,6 +90,26 @@ def random_exec(rng, n, naddr, P):
     return ex
 
 
+def many_leaks_exec(rng, n):
+    """More outstanding blocks than the detector's fixed report buffer can list: the report is cut, the stated total must not be."""
+    ex = [[rng.choice(["enable", "startchecking", "disable"]), 0, 0, 0, "", 0, ""]]
+    addrs = rng.sample(range(200), n)
+    for i, a in enumerate(addrs):
+        ex.append(["alloc", a, 0, rng.choice([1, 3, 8, 24, 40]), rng.choice(["new", "malloc"]), 101 + i, ""])
+        if i % 7 == 3:
+            ex.append([rng.choice(["enable", "startchecking", "stopchecking"]), 0, 0, 0, "", 0, ""])
+    for q in ("all", "enabled", "checking", "disabled"):
+        ex.append(["report", 0, 0, 0, "", 0, q])
+    for a in addrs[::3]:
+        ex.append(["free", a, 0, 0, "", 0, ""])
+    ex.append(["report", 0, 0, 0, "", 0, "all"])
+    ex.append(["demote", 0, 0, 0, "", 0, ""])
+    ex.append(["report", 0, 0, 0, "", 0, "enabled"])
+    ex.append(["clear", 0, 0, 0, "", 0, "enabled"])
+    ex.append(["report", 0, 0, 0, "", 0, "all"])
+    return ex
+
+
 def run(ctx):
     quick = ctx.quick
     exe = ctx.build_harness("leak", "asan")
@@ -148,6 +168,7 @@ def run(ctx):
     pcfg = ctx.write_cfg("Predict_LeakTable_r", TRACE % {"spec": "PSpec", "P": P, "tail": "INVARIANT Predict"})
     nexec, nops = (6, 500) if quick else (40, 2500)
     execs = [random_exec(ctx.rng, nops, 64, P) for _ in range(nexec)]
+    execs += [many_leaks_exec(ctx.rng, n) for n in ([13, 20, 45] if quick else [5, 12, 14, 16, 20, 30, 45, 70, 120, 180])]
     ctx.sample({"source": "seeded random driver", "execution": ["\t".join(map(str, l)) for l in execs[0][:12]]})
     for sep in (0, 1):
         conform(ctx, "random-sep%d" % sep, execs, lambda s, l, sep=sep: ctx.run([exe, s, l, str(P), str(sep), str(sep)], timeout=600),
